@@ -525,6 +525,21 @@ static string sparse_case(const std::vector<string>& t)       // sparse <base> <
   return "BADCASE";
 }
 
+// Iterator categories / typedefs are compile-time facts (DESIGN section 4 C16, "Level and gaps"): asserted here, not in Coq.
+template<class It> using cat_t = typename std::iterator_traits<It>::iterator_category;
+static_assert(std::is_same_v<cat_t<DynFix::M>, std::random_access_iterator_tag> && std::is_same_v<cat_t<DynFix::K>, std::random_access_iterator_tag>);
+static_assert(std::is_same_v<cat_t<GenFix::M>, std::random_access_iterator_tag> && std::is_same_v<cat_t<GenFix::K>, std::random_access_iterator_tag>);
+static_assert(std::is_same_v<cat_t<AlFix::M>, std::random_access_iterator_tag> && std::is_same_v<cat_t<AlFix::K>, std::random_access_iterator_tag>);
+static_assert(std::is_same_v<cat_t<TrFix::M>, std::random_access_iterator_tag> && std::is_same_v<cat_t<TrFix::K>, std::random_access_iterator_tag>);
+static_assert(std::is_same_v<cat_t<Dune::IntegralRange<int>::iterator>, std::random_access_iterator_tag>);
+static_assert(std::is_same_v<cat_t<Dune::SLList<int>::iterator>, std::forward_iterator_tag> && std::is_same_v<cat_t<Dune::SLList<int>::const_iterator>, std::forward_iterator_tag>
+              && std::is_same_v<cat_t<Dune::SLList<int>::ModifyIterator>, std::forward_iterator_tag>);
+static_assert(std::is_same_v<cat_t<decltype(Dune::transformedRangeView(std::declval<std::list<int>&>(), TrF{}).begin())>, std::bidirectional_iterator_tag>);
+static_assert(std::is_convertible_v<DynFix::M, DynFix::K> && std::is_convertible_v<GenFix::M, GenFix::K> && std::is_convertible_v<AlFix::M, AlFix::K>);
+static_assert(!std::is_convertible_v<AlFix::K, AlFix::M>, "ArrayList: const -> mutable must not convert (second branch of the facade operators)");
+static_assert(std::is_same_v<std::iterator_traits<Dune::IntegralRange<unsigned>::iterator>::difference_type, int>);
+static_assert(std::is_same_v<decltype(std::declval<Dune::IntegralRange<short>>().size()), unsigned short>);
+
 string c16_misc_case(const std::vector<string>& t)
 {
   if (t[0] == "cmp" || t[0] == "step") {
